@@ -237,7 +237,9 @@ class Cell(NullCell):
             payload += ser_result
             serialized_cells_len.append(len(ser_result))
 
-        payload_len = (len(payload).bit_length() + 7) // 8
+        # offsets are doubled (cache bit in the lowest bit) when cache bits are on, so they need one more bit
+        max_offset = len(payload) * 2 + 1 if has_cache_bits else len(payload)
+        payload_len = (max_offset.bit_length() + 7) // 8
 
         root_num = 1  # currently 1
         root_index = b'\00' * cells_len
@@ -254,8 +256,11 @@ class Cell(NullCell):
                  root_index
 
         if has_idx:
+            # index entry = offset of the END of the cell in the cells data (cumulative)
+            end_offset = 0
             for l in serialized_cells_len:
-                result += l.to_bytes(payload_len, 'big')
+                end_offset += l
+                result += (end_offset * 2 if has_cache_bits else end_offset).to_bytes(payload_len, 'big')
         result += payload
         if hash_crc32:
             result += crc32c(result)
